@@ -10,6 +10,15 @@ CLAIMED = {
     "C01": ("exploration", "property-based testing: generated circuit programs (60 gadget ops) x generated admissible configs, differential against a reference interpreter over the field",
             "Hundreds (quick) to thousands (thorough) of generated (config, program, inputs) cases are built, proved and verified with the real API; public inputs are compared with an independent interpretation of the same program; a second independent build must accept the proof.",
             "Reference interpreter trusts Goldilocks field arithmetic (C14) and native Poseidon hashing (C13). Prover salts are unseeded (OsRng).", "§C01"),
+    "C02": ("fault_enumeration", "property-based fault injection on witnesses: O-sat satisfaction oracle (recorded gate rows + copy classes) x corruption families F1-F5 x adversarial prover knobs driving the real prover; oracle = nothing may verify",
+            "For each generated circuit an honest witness is corrupted (copy-class overwrite, single cell detached from its class, copy class split before generation so that only the permutation is violated, public-input link, asserted variable) and handed to the real prover through the public API, also with an all-zero or scaled Z, a perturbed quotient, lenient truncation and a grinding override (cfg-gated knobs). Corruptions the independent satisfaction oracle calls violating must never yield an accepted plain or compressed proof. Thorough tier enumerates every cell of small circuits.",
+            "The adversary catalogue is finite (local corruptions, listed strategies). The oracle trusts each gate's eval_unfiltered (C07) and the builder's copy classes; lookups are judged by C08.", "§C02"),
+    "C08": ("fault_enumeration", "property-based testing of lookup circuits: generated tables and lookup multisets around the slot boundaries (positive), post-lookup witness overrides of pairs / table cells / multiplicities / padding with the real prover (negative)",
+            "Generated circuits with 1-3 tables and lookup counts around the slot count prove, verify and output the table values; then one looked-up output, table cell, multiplicity or padding slot is overridden after the prover filled the lookup wires and the real prover is run (honest path, zero/scaled Z, perturbed quotient): no plain or compressed proof may verify; a non-member input must not yield an accepted proof.",
+            "Tables up to a few rows' worth of 16-bit pairs; distinct table inputs and used tables as the API requires.", "§C08"),
+    "C15": ("exploration", "property-based differential testing against naive definitions (O(n^2) DFT, schoolbook product, long division, Lagrange) over all sizes/zero-tail factors/root tables, structured sparse operands; scalar + debug-assert + AVX-512 builds",
+            "Hundreds of thousands of generated transform and polynomial-algebra cases per run (sizes 2^0..2^11 against the naive DFT, 2^12..2^16 by identities, every zero-tail factor with and without root table, sparse/untrimmed/equal-degree operands for division, non-power-of-two interpolation, 12 element sizes for in-place bit reversal across all code paths).",
+            "Oracle uses u128 arithmetic or the field's basic + - * inverse (judged by C14).", "§C15"),
     "C03": ("fault_enumeration", "property-based fault injection: value/shape edits over the serde tree of accepted proofs (plain + compressed), other-circuit verifier data; oracle = verifier must not accept",
             "For each generated accepted proof, sampled (quick) or all (thorough, proofs up to 12k leaves) element positions are edited (+1, -1, 0, random canonical value), every container is shape-edited, and a different circuit's verifier data is presented; acceptance of any of these is a violation. Exhaustive per proof in thorough mode, sampled over proofs.",
             "Rejections that rely on Fiat-Shamir re-randomisation are asserted only with >= 48 bits of FRI margin; edits of the compressed proof's redundant index list are exempt as the statement says.", "§C03"),
